@@ -11,6 +11,15 @@ path of either tree plus absent paths, real code vs. model.
 Oracle (real code only): empty iff equal; reported paths = {p | lookup a p != lookup b p} with the right
 status / prev / curr; applying nodes() in order with an independent simulator (remove needs a file or an
 *empty* directory, add needs an existing parent directory) turns a into b; get agrees with the listing.
+Scenarios (oracle only; the model is a pure function of the two snapshot *values* at the time of the call, so
+independence of the result from what happens to the argument *objects* afterwards cannot be stated in it): after
+compare(a, b) the harness edits the two dict objects in place (clear / recycle `a.clear(); a.update(b)` / swap /
+replace / add, remove, modify entries at any depth / make them equal), before the first and between later
+inspections, each inspection touching the result first through one of is_empty, _diff_root, get(""), get(p),
+status(get(p)), annotate(dir) (empty directory, or the new tree materialised on disk); every complete observation
+must describe the snapshots as they were at compare() and repeated observations must agree. After such edits the
+*content* of directory entries in prev/curr is not compared (DiffNode holds shallow copies of the caller's dicts,
+nested directories stay shared - object aliasing, outside the statement; tag `dir-entry-follows-later-edit-of-input`).
 """
 import copy
 import itertools
@@ -160,26 +169,33 @@ def simulate(a, nodes):
     return root[""], None
 
 
-def check_pair(a0, b0):
-    from pathlib import Path
+def expected(a0, b0):
+    """reference {path: (old entry, new entry)} of all paths whose entry differs (no code under test involved)."""
+    exp = {}
+    for p in set(all_paths(a0)) | set(all_paths(b0)):
+        la, lb = lookup(a0, p), lookup(b0, p)
+        if la != lb:
+            exp[p] = (la, lb)
+    return exp
 
-    from metador_core.util.diff import DiffNode, DirDiff
+
+def _same(x, want, strict):
+    """entry reported by a node vs. the entry of the compared snapshot. strict: equal. Not strict (the caller has
+    mutated the snapshot objects after compare()): same kind, and equal if it is a file entry - DiffNode keeps
+    directory entries as (shallow copies of) the caller's dict objects, so their *content* follows later in-place
+    edits of nested directories; the property does not speak about object aliasing, only recorded as a tag."""
+    if strict:
+        return x == want
+    if isinstance(want, dict):
+        return isinstance(x, dict)
+    return x == want
+
+
+def check_listing(d, nodes, a0, b0, strict=True):
+    """oracle for a listing (nodes in the order given by the code): exact set, status, entries, safe order."""
+    from metador_core.util.diff import DiffNode
     S = DiffNode.Status
-    a, b = copy.deepcopy(a0), copy.deepcopy(b0)
-    out, oracle, tags = [], [], set()
-    try:
-        d = DirDiff.compare(a, b)
-        nodes = d._diff_root.nodes() if d._diff_root is not None else []
-    except Exception as e:  # noqa: BLE001  (compare is total on DirHashsums)
-        return ["empty ?", "nodes ?"] + ["get ?" for _ in query_paths(a0, b0)], [dict(kind="compare-raised", error="%s: %s" % (type(e).__name__, str(e)[:200]))], []
-    if a != a0 or b != b0:
-        oracle.append(dict(kind="input-mutated"))
-    out.append("empty " + ("T" if d.is_empty else "F"))
-    out.append(" ".join(["nodes"] + [_node_line(n) for n in nodes]))
-    # --- no difference iff equal
-    if d.is_empty != (a0 == b0):
-        oracle.append(dict(kind="empty-iff-equal", empty=d.is_empty, equal=(a0 == b0)))
-    # --- reported set is exact
+    oracle, tags = [], set()
     listed = {}
     for n in nodes:
         p = tuple(n.path.parts)
@@ -199,8 +215,10 @@ def check_pair(a0, b0):
         want = S.added if la is None else S.removed if lb is None else S.modified
         if n.status() != want or d.status(n) != want:
             oracle.append(dict(kind="wrong-status", path=list(p), got=n.status().value, want=want.value))
-        if n.prev != la or n.curr != lb:
+        if not _same(n.prev, la, strict) or not _same(n.curr, lb, strict):
             oracle.append(dict(kind="wrong-prev-curr", path=list(p)))
+        elif not strict and (n.prev != la or n.curr != lb):
+            tags.add("dir-entry-follows-later-edit-of-input")
         tags.add({"+": "added", "-": "removed", "~": "modified"}[want.value])
         if isinstance(la, dict) != isinstance(lb, dict) and la is not None and lb is not None:
             tags.add("file<->dir")
@@ -216,25 +234,238 @@ def check_pair(a0, b0):
             oracle.append(dict(kind="unsafe-order", error=err))
         elif res != b0:
             oracle.append(dict(kind="apply-does-not-give-new-tree", got=res))
-    # --- get agrees with the listing
-    for p in query_paths(a0, b0):
-        g = d.get(Path(*p) if p else Path(""))
-        out.append("get " + ("none" if g is None else _node_line(g)))
+    if len(nodes) > 6:
+        tags.add("nodes>6")
+    return listed, oracle, tags
+
+
+def check_gets(d, gets, listed, strict=True):
+    """get(p) (results in `gets`: path -> node/None) agrees with the listing."""
+    from metador_core.util.diff import DiffNode
+    S = DiffNode.Status
+    oracle = []
+    for p, g in gets.items():
         n = listed.get(p)
-        if (g is None) != (n is None) or (g is not None and (g.path != n.path or g.prev != n.prev or g.curr != n.curr)):
+        if (g is None) != (n is None) or (g is not None and (g.path != n.path or not _same(g.prev, n.prev, strict or g is n)
+                                                              or not _same(g.curr, n.curr, strict or g is n))):
             oracle.append(dict(kind="get-disagrees-with-listing", path=list(p)))
         if d.status(g) != (S.unchanged if n is None else n.status()):
             oracle.append(dict(kind="status-of-get", path=list(p)))
-    if len(nodes) > 6:
-        tags.add("nodes>6")
+    return oracle
+
+
+def check_pair(a0, b0):
+    from pathlib import Path
+
+    from metador_core.util.diff import DirDiff
+    a, b = copy.deepcopy(a0), copy.deepcopy(b0)
+    out, oracle, tags = [], [], set()
+    try:
+        d = DirDiff.compare(a, b)
+        nodes = d._diff_root.nodes() if d._diff_root is not None else []
+    except Exception as e:  # noqa: BLE001  (compare is total on DirHashsums)
+        return ["empty ?", "nodes ?"] + ["get ?" for _ in query_paths(a0, b0)], [dict(kind="compare-raised", error="%s: %s" % (type(e).__name__, str(e)[:200]))], []
+    if a != a0 or b != b0:
+        oracle.append(dict(kind="input-mutated"))
+    out.append("empty " + ("T" if d.is_empty else "F"))
+    out.append(" ".join(["nodes"] + [_node_line(n) for n in nodes]))
+    # --- no difference iff equal
+    if d.is_empty != (a0 == b0):
+        oracle.append(dict(kind="empty-iff-equal", empty=d.is_empty, equal=(a0 == b0)))
+    # --- reported set is exact, order is safe
+    listed, orc, tg = check_listing(d, nodes, a0, b0)
+    oracle += orc
+    tags |= tg
+    # --- get agrees with the listing
+    gets = {}
+    for p in query_paths(a0, b0):
+        g = gets[p] = d.get(Path(*p) if p else Path(""))
+        out.append("get " + ("none" if g is None else _node_line(g)))
+    oracle += check_gets(d, gets, listed)
     return out, oracle, sorted(tags)
+
+
+# ----------------------------------------------------------------------------- later edits of the snapshot objects
+# What was compared are the snapshots at the time of the call: a caller may recycle / edit the dict objects it passed
+# (one running snapshot updated in place, ...) between compare() and any inspection of the result. A scenario is a
+# sequence of steps  ["obs", way] | ["mut", op...]  executed after compare(); every "obs" touches the result through
+# `way` first and then makes the complete observation, which must describe the snapshots as they were at compare().
+WAYS = ["empty", "root", "get-root", "get", "status", "annotate"]
+
+
+def _dir_at(t, path):
+    for p in path:
+        if not isinstance(t, dict) or not isinstance(t.get(p), dict):
+            return None
+        t = t[p]
+    return t if isinstance(t, dict) else None
+
+
+def apply_mut(op, ab):
+    """in-place edit of the two snapshot objects ab = [a, b]; lenient (an op that does not fit is skipped)."""
+    k = op[0]
+    if k == "swap":
+        tmp = dict(ab[0])
+        ab[0].clear()
+        ab[0].update(ab[1])
+        ab[1].clear()
+        ab[1].update(tmp)
+        return
+    x, other = ab[op[1]], ab[1 - op[1]]
+    if k == "clear":
+        x.clear()
+    elif k == "copy":  # recycle: x.clear(); x.update(other)  (sub-directories shared afterwards)
+        x.clear()
+        x.update(other)
+    elif k == "deepcopy":
+        x.clear()
+        x.update(copy.deepcopy(other))
+    elif k == "replace":
+        x.clear()
+        x.update(copy.deepcopy(op[2]))
+    elif k == "set":
+        par = _dir_at(x, op[2][:-1])
+        if par is not None and op[2]:
+            par[op[2][-1]] = copy.deepcopy(op[3])
+    elif k == "del":
+        par = _dir_at(x, op[2][:-1])
+        if par is not None and op[2] and op[2][-1] in par:
+            del par[op[2][-1]]
+
+
+def materialise(t, base):
+    """directory with the content described by snapshot t (file content = its entry, symlink target as given)."""
+    import os
+    for k, v in t.items():
+        p = os.path.join(base, k)
+        if isinstance(v, dict):
+            os.mkdir(p)
+            materialise(v, p)
+        elif v.startswith("symlink:"):
+            os.symlink(v[len("symlink:"):], p)
+        else:
+            with open(p, "w") as f:
+                f.write(v)
+
+
+def observe(d, way, a0, b0, strict, base_dir):
+    """touch the result through `way` first, then the complete observation. Returns (canonical form, oracle, tags)."""
+    from pathlib import Path
+    oracle, tags = [], set()
+    qs = query_paths(a0, b0)
+    first = None
+    if way == "empty":
+        first = d.is_empty
+    elif way == "root":
+        first = d._diff_root if hasattr(d, "_diff_root") else d.get(Path(""))
+    elif way == "get-root":
+        first = d.get(Path(""))
+    elif way == "get":
+        first = [d.get(Path(*p) if p else Path("")) for p in qs]
+    elif way == "status":
+        first = [d.status(d.get(Path(*p) if p else Path(""))) for p in qs]
+    elif way == "annotate":
+        first = d.annotate(Path(base_dir))
+    # --- complete observation
+    empty = d.is_empty
+    if empty != (a0 == b0):
+        oracle.append(dict(kind="empty-iff-equal", empty=empty, equal=(a0 == b0)))
+    root = d.get(Path(""))
+    nodes = root.nodes() if root is not None else []
+    listed, orc, tg = check_listing(d, nodes, a0, b0, strict)
+    oracle += orc
+    tags |= tg
+    gets = {p: d.get(Path(*p) if p else Path("")) for p in qs}
+    oracle += check_gets(d, gets, listed, strict)
+    if way == "get":
+        oracle += check_gets(d, dict(zip(qs, first)), listed, strict)
+    elif way == "status":
+        for p, st in zip(qs, first):
+            if st != d.status(listed.get(p)):
+                oracle.append(dict(kind="status-of-get", path=list(p)))
+    elif way == "annotate":
+        # values that are nodes, in iteration order = a listing; a path annotated with None is reported as unchanged
+        exp = expected(a0, b0)
+        vals = []
+        for k, v in first.items():
+            rel = tuple(Path(k).relative_to(base_dir).parts)
+            if v is None:
+                if rel in exp:
+                    oracle.append(dict(kind="changed-path-missing", path=list(rel), via="annotate"))
+                continue
+            if tuple(v.path.parts) != rel:
+                oracle.append(dict(kind="get-disagrees-with-listing", path=list(rel), via="annotate"))
+            vals.append(v)
+        _l, orc, _t = check_listing(d, vals, a0, b0, strict)
+        for o in orc:
+            o["via"] = "annotate"
+        oracle += orc
+        tags.add("annotate")
+    canon = (empty, tuple((tuple(n.path.parts), n.status().value, _kind(n.prev), _kind(n.curr)) for n in nodes),
+             tuple((p, None if g is None else (tuple(g.path.parts), g.status().value)) for p, g in gets.items()))
+    return canon, oracle, tags
+
+
+def _kind(x):
+    return "-" if x is None else "d" if isinstance(x, dict) else "f:" + x
+
+
+def check_scenario(a0, b0, scen):
+    """compare(), then the steps of the scenario, then two more complete observations (stable)."""
+    import shutil
+    import tempfile
+    from metador_core.util.diff import DirDiff
+    ab = [copy.deepcopy(a0), copy.deepcopy(b0)]
+    oracle, tags = [], set()
+    steps = [list(s) for s in scen.get("steps", [])]
+    steps.append(["obs", ([w for w in WAYS if ["obs", w] not in steps] or WAYS)[0]])  # once more: stable
+    tmp = tempfile.mkdtemp(prefix="c18-")
+    muts, nobs, last = [], 0, None
+    if scen.get("mat"):
+        materialise(b0, tmp)  # the directory in its current state, as annotate() expects it
+        tags.add("annotate-on-directory")
+    try:
+        d = DirDiff.compare(ab[0], ab[1])
+        for i, st in enumerate(steps):
+            if st[0] == "mut":
+                apply_mut(st[1:], ab)
+                muts.append(st[1:])
+                last = None
+                continue
+            canon, orc, tg = observe(d, st[1], a0, b0, not muts, tmp)
+            tags |= tg
+            if not orc and last is not None and canon != last:
+                orc = [dict(kind="inspection-not-stable")]
+            last = canon
+            if muts:
+                tags.add("edited-before-first-inspection" if nobs == 0 else "edited-between-inspections")
+            nobs += 1
+            if orc:
+                for o in orc:
+                    if muts:
+                        o["kind"] = "after-edit-of-snapshot:" + o["kind"]
+                    o["step"] = i
+                    o["first_touched"] = st[1]
+                    oracle.append(o)
+                break
+    except Exception as e:  # noqa: BLE001
+        oracle.append(dict(kind=("after-edit-of-snapshot:" if muts else "") + "inspection-raised",
+                           error="%s: %s" % (type(e).__name__, str(e)[:200])))
+    finally:
+        shutil.rmtree(tmp, ignore_errors=True)
+    return oracle, tags
 
 
 def impl(case):
     out, oracle, tags = [], [], set()
+    alias = case.get("alias") or []
     for i, (a, b) in enumerate(case["pairs"]):
         o, orc, tg = check_pair(a, b)
         out += o
+        if not orc and i < len(alias) and alias[i]:
+            # the scenarios only when the plain observation is clean (otherwise they repeat its findings)
+            orc, tg2 = check_scenario(a, b, alias[i])
+            tg = set(tg) | tg2
         for d in orc:
             d["pair"] = i
             oracle.append(d)
@@ -341,6 +572,63 @@ def shuffled(rng, t):
     return {k: shuffled(rng, t[k]) for k in ks}
 
 
+def _dirs(t, pre=()):
+    yield pre
+    for k in sorted(t):
+        if isinstance(t[k], dict):
+            yield from _dirs(t[k], pre + (k,))
+
+
+def rand_muts(rng, a, b):
+    """in-place edits of the two snapshot objects, recorded as data (valid for the evolving trees)."""
+    ab = [copy.deepcopy(a), copy.deepcopy(b)]
+    ops = []
+    for _ in range(rng.choice([1, 1, 1, 2, 3])):
+        r = rng.random()
+        s = rng.randrange(2)
+        if r < 0.3:
+            op = rng.choice([["copy", s], ["copy", s], ["deepcopy", s], ["clear", s], ["swap"]])
+        elif r < 0.4:
+            op = ["replace", s, rand_tree(rng, rng.choice([0, 1, 2]), 3)]
+        else:
+            # add / remove / modify an entry at any depth
+            path = list(rng.choice(list(_dirs(ab[s]))))
+            cur = _dir_at(ab[s], path)
+            keys = sorted(cur)
+            k = rng.choice(["del", "del", "set-old", "set-old", "set-new"]) if keys else "set-new"
+            if k == "del":
+                op = ["del", s, path + [rng.choice(keys)]]
+            else:
+                name = rng.choice(keys) if k == "set-old" else rng.choice(NAMES[:3] + NAMES)
+                val = rand_tree(rng, 1, 2) if rng.random() < 0.3 else rng.choice(LEAVES)
+                if k == "set-old" and rng.random() < 0.3:
+                    val = copy.deepcopy(lookup(ab[1 - s], path + [name])) or val  # towards "equal"
+                op = ["set", s, path + [name], val]
+        apply_mut(op, ab)
+        ops.append(["mut"] + op)
+    return ops, ab
+
+
+def rand_scenario(rng, a, b):
+    """steps after compare(a, b): [inspection] edits inspection [edits inspection]; see check_scenario."""
+    steps = []
+    if rng.random() < 0.3:
+        steps.append(["obs", rng.choice(WAYS)])
+    ops, ab = rand_muts(rng, a, b)
+    steps += ops
+    steps.append(["obs", rng.choice(WAYS)])
+    if rng.random() < 0.3:
+        ops, ab = rand_muts(rng, ab[0], ab[1])
+        steps += ops
+        steps.append(["obs", rng.choice(WAYS)])
+    size = sum(1 for _ in all_paths(b))
+    return dict(steps=steps, mat=bool(size <= 12 and rng.random() < 0.15))
+
+
+def with_scenarios(rng, pairs, frac):
+    return dict(pairs=pairs, alias=[rand_scenario(rng, a, b) if rng.random() < frac else None for a, b in pairs])
+
+
 def gen_cases(ctx, scale=1.0):
     rng = ctx.rng
     cases = []
@@ -352,8 +640,9 @@ def gen_cases(ctx, scale=1.0):
     else:
         pairs = [[a, b] for a in trees for b in trees]
         ctx.exhaustive_spaces.append("all %d^2 ordered pairs of trees of depth <= 2 over the names a, b with leaves file(2 contents at the top level)/symlink/empty dir/dir" % len(trees))
+    frac = 0.5 if ctx.quick else 0.15
     for i in range(0, len(pairs), B):
-        cases.append(dict(pairs=pairs[i:i + B]))
+        cases.append(with_scenarios(rng, pairs[i:i + B], frac))
     nr = int((3000 if ctx.quick else 20000) * scale)
     rp = []
     for i in range(nr):
@@ -363,7 +652,7 @@ def gen_cases(ctx, scale=1.0):
             a, b = b, a
         rp.append([shuffled(rng, a), shuffled(rng, b)])
     for i in range(0, len(rp), B):
-        cases.append(dict(pairs=rp[i:i + B]))
+        cases.append(with_scenarios(rng, rp[i:i + B], 0.5))
     return cases
 
 
@@ -371,11 +660,17 @@ def run(ctx):
     ctx.rule = ("cases: batches of pairs (old, new) of nested dicts as produced by dir_hashsums: small trees over two names (quick: sampled, "
                 "thorough: all ordered pairs) and random larger trees, the new tree either independent or an edited copy of the old one "
                 "(delete / add / change content / file->dir / dir->file at random depth), random dict insertion order. "
-                "Non-trivial = tagged: added / removed / modified nodes, file<->dir replacement, removed non-empty subtree, more than 6 nodes.")
+                "Half of the pairs (thorough: 15% of the exhaustive ones) carry a scenario: in-place edits of the two snapshot objects "
+                "after compare() (clear, recycle, swap, replace, set/del at any depth, make equal) before the first / between inspections, "
+                "first touch through is_empty | _diff_root | get('') | get(p) | status | annotate(dir), then the complete observation, repeated. "
+                "Non-trivial = tagged: added / removed / modified nodes, file<->dir replacement, removed non-empty subtree, more than 6 nodes, "
+                "edited-before-first-inspection, edited-between-inspections, annotate, annotate-on-directory.")
     ctx.assumptions += [
         "dict keys are unique and dict comparison ignores insertion order: the model takes directories as key-sorted association lists",
         "PurePosixPath ordering of sibling paths = code point order of the last name = Lean String order (ASCII names used)",
         "file entries are non-empty strings (dir_hashsums never stores an empty string)",
+        "after in-place edits of the argument dicts, directory entries reported in prev/curr are compared by kind only (DiffNode keeps "
+        "shallow copies of the caller's dicts; aliasing of nested directories is outside the statement)",
     ]
     cases = core.load_corpus(ID) + gen_cases(ctx)
     ctx.correspond("dirdiff", MOD, cases, lines, "drv_dif", compare=compare, timeout=300)
@@ -418,33 +713,60 @@ def _shrink(ctx, case, detail):
     from .. import pool
     want = detail.get("kind") if isinstance(detail, dict) else None
     i = detail.get("pair", 0) if isinstance(detail, dict) else 0
-    pair = case["pairs"][i] if i < len(case["pairs"]) else case["pairs"][0]
+    if i >= len(case["pairs"]):
+        i = 0
+    pair = case["pairs"][i]
+    alias = case.get("alias") or []
+    scen = alias[i] if i < len(alias) else None
 
-    def fails(p):
-        r = pool.run_one(MOD, "impl", dict(pairs=[p]), timeout=60)
+    def mk(p, sc):
+        return dict(pairs=[p], alias=[sc]) if sc else dict(pairs=[p])
+
+    def fails(p, sc):
+        r = pool.run_one(MOD, "impl", mk(p, sc), timeout=60)
         if "ok" not in r:
             return None
         ds = [d for d in r["ok"]["oracle"] if d.get("kind") == want]
         return ds[0] if ds else None
 
-    det = fails(pair)
+    det = fails(pair, scen)
     if det is None:
         return case, detail
-    budget = 150
+    budget = 200
     progress = True
     while progress and budget > 0:
         progress = False
+        if scen:
+            # fewer steps / no directory on disk, then smaller values in the edits
+            cands = [dict(scen, steps=scen["steps"][:j] + scen["steps"][j + 1:]) for j in range(len(scen["steps"]))]
+            if scen.get("mat"):
+                cands.insert(0, dict(scen, mat=False))
+            for j, st in enumerate(scen["steps"]):
+                if st[0] == "mut" and st[1] in ("set", "replace") and isinstance(st[-1], dict):
+                    for sub in list(_shrinks(st[-1])) + [F1]:
+                        cands.append(dict(scen, steps=scen["steps"][:j] + [st[:-1] + [sub]] + scen["steps"][j + 1:]))
+            for sc in cands:
+                if budget <= 0:
+                    break
+                budget -= 1
+                d = fails(pair, sc)
+                if d:
+                    scen, det, progress = sc, d, True
+                    break
+            if progress:
+                continue
         for side in (0, 1):
             for s in _shrinks(pair[side]):
                 if budget <= 0:
                     break
                 budget -= 1
                 p = [s, pair[1]] if side == 0 else [pair[0], s]
-                d = fails(p)
+                d = fails(p, scen)
                 if d:
                     pair, det, progress = p, d, True
                     break
-    return dict(pairs=[pair]), det
+    det = dict(det, pair=0)
+    return mk(pair, scen), det
 
 
 def search(ctx):
